@@ -44,22 +44,23 @@ Definition fcl2_case_premise (c : fcl2_case) : bool :=
 (** From the DATA with the CUSUM score on one column: the moving window and seeded binary segmentation (these detectors only COMPARE scores: Properties/C07_float.v,
     C08_float.v, C0x_any_threshold_float.v hold for whatever floats the scorer produced; here the scores themselves come from the binary64 twin [cusum_F] of the kernel, whose
     refinement / error theorem (Properties/C06.v, premise [cusum_trace_ok]) says how far they are from the real CUSUM statistic). *)
-From SK Require Import Check.FloatKernelCheck2 Model.GenericAny Proofs.FloatKernels2.
+From SK Require Import Check.FloatKernelCheck2 Model.GenericAny Proofs.FloatKernels2 Proofs.MwSbsFloatCusum.
 Record fmw2_case := { w2_xs : list float; w2_b : nat; w2_thr : float; w2_mdi : nat; w2_scores : list float; w2_cpts : list nat }.
 Definition fmw2_case_ok (c : fmw2_case) : bool :=
   let '(sc, cp) := gmw_any F64 (cusum_F (w2_xs c)) (w2_b c) (length (w2_xs c)) (w2_thr c) (w2_mdi c) in
   flist_same sc (w2_scores c) && nlist_same cp (w2_cpts c).
+(** the premise of Properties/C08_binary64_cusum.v ([mw_cusum_trace_ok]: every admissible cut stays in the normal range; the series is shorter than 2^46) and a finite threshold *)
 Definition fmw2_case_premise (c : fmw2_case) : bool :=
-  let b := w2_b c in
-  forallb (fun t => cusum_trace_ok (w2_xs c) (t - b) t (t + b)) (seq b (length (w2_xs c) + 1 - 2 * b)).
+  mw_cusum_trace_ok (w2_xs c) (w2_b c) && PrimFloat.is_finite (w2_thr c).
 Record fsbs2_case := { s2_xs : list float; s2_m : nat; s2_thr : float; s2_ivs : list (nat * nat); s2_cpts : list nat; s2_argmax : list nat; s2_max : list float }.
 Definition fsbs2_case_ok (c : fsbs2_case) : bool :=
   match gsbs_any F64 (cusum_F (s2_xs c)) (s2_m c) (s2_thr c) (s2_ivs c) with
   | None => false
   | Some (cp, am) => nlist_same cp (s2_cpts c) && nlist_same (map fst am) (s2_argmax c) && flist_same (map snd am) (s2_max c)
   end.
+(** the premise of Properties/C07_binary64_cusum.v ([sbs_cusum_trace_ok]) and a finite threshold *)
 Definition fsbs2_case_premise (c : fsbs2_case) : bool :=
-  forallb (fun se => let '(s, e) := se in forallb (fun k => cusum_trace_ok (s2_xs c) s k e) (seq (s + s2_m c) (e - s2_m c + 1 - (s + s2_m c)))) (s2_ivs c).
+  sbs_cusum_trace_ok (s2_xs c) (s2_m c) (s2_ivs c) && PrimFloat.is_finite (s2_thr c).
 
 (** Circular binary segmentation from the DATA, squared-error cost on one column: the local anomaly score of (s, a, b, e) is
     outer - (inner + surrounding), the surrounding cost being the cost of the CONCATENATED rows before and after the inner interval, fitted afresh (its own prefix sums). *)
